@@ -191,4 +191,81 @@ theorem C08_block_creates_nothing (child : Option ChildFn) (ctx : Ctx) (pos : Po
   | «repeat» var ce st => exact C08_repeat_creates_nothing child ctx pos var ce block _ _ st [] o x h hx
   | «while» var cond st => exact C08_while_creates_nothing child ctx pos var cond block _ _ st [] o x h hx
 
+/-- a function call too: whatever the body (parameters included) created is gone after RUN, and the caller's functions are the ones it had -/
+theorem C08_run_creates_nothing (child : Option ChildFn) (ctx : Ctx) (pos : Pos) (a : Arg) (st : St) (rc : RC) (x : Str)
+    (h : runRun child ctx pos a st = .ok rc) (hx : assocHas st.env.user x = false) :
+    assocHas rc.st.env.user x = false ∧ rc.st.env.funcs = st.env.funcs := by
+  unfold runRun at h
+  simp only [R.bind_eq_ok] at h
+  obtain ⟨p, _, r, _, h⟩ := h
+  unfold runPost at h
+  split at h
+  · simp [raise] at h
+  · simp only [R.ok.injEq] at h
+    subst h
+    exact ⟨leave_creates_nothing st r.st x hx, rfl⟩
+
+/-- functions defined inside a loop body or a branch do not exist after the statement: the function table is the one before it -/
+theorem C08_block_keeps_functions (child : Option ChildFn) (ctx : Ctx) (pos : Pos) (block : List Node) (act : BlockAct) (o : Out)
+    (h : runBlockAct child ctx pos block act = .ok o) : o.st.env.funcs = act.st0.env.funcs := by
+  have hrep : ∀ (var : Option Str) (ce : Str) (budget count : Nat) (st : St) (out : List Str) (o : Out),
+      repeatLoop child ctx pos var ce block budget count st out = .ok o → o.st.env.funcs = st.env.funcs := by
+    intro var ce budget
+    induction budget with
+    | zero => intro count st out o h; simp only [repeatLoop] at h; cases h; rfl
+    | succ b ih =>
+      intro count st out o h
+      unfold repeatLoop at h
+      simp only [R.bind_eq_ok] at h
+      obtain ⟨n, _, h⟩ := h
+      split at h
+      · cases h; rfl
+      · cases child with
+        | none => simp [guardChild, overflowErr] at h
+        | some c =>
+          simp only [guardChild, R.bind_eq_ok] at h
+          obtain ⟨cst, _, r, _, h⟩ := h
+          split at h
+          · rename_i st' out' s heq
+            cases h
+            simp only [afterIter, Prod.mk.injEq] at heq
+            rw [← heq.1]; rfl
+          · rename_i st' out' heq
+            simp only [afterIter, Prod.mk.injEq] at heq
+            rw [ih _ _ _ _ h, ← heq.1]; rfl
+  have hwh : ∀ (var : Option Str) (cond : Str) (budget count : Nat) (st : St) (out : List Str) (o : Out),
+      whileLoop child ctx pos var cond block budget count st out = .ok o → o.st.env.funcs = st.env.funcs := by
+    intro var cond budget
+    induction budget with
+    | zero => intro count st out o h; simp [whileLoop, raise] at h
+    | succ b ih =>
+      intro count st out o h
+      unfold whileLoop at h
+      cases child with
+      | none => simp [guardChild, overflowErr] at h
+      | some c =>
+        simp only [guardChild, R.bind_eq_ok] at h
+        obtain ⟨cst, _, cv, _, h⟩ := h
+        split at h
+        · cases h; rfl
+        · simp only [R.bind_eq_ok] at h
+          obtain ⟨r, _, h⟩ := h
+          split at h
+          · rename_i st' out' s heq
+            cases h
+            simp only [afterIter, Prod.mk.injEq] at heq
+            rw [← heq.1]; rfl
+          · rename_i st' out' heq
+            simp only [afterIter, Prod.mk.injEq] at heq
+            rw [ih _ _ _ _ h, ← heq.1]; rfl
+  cases act with
+  | done o' => simp only [runBlockAct, R.ok.injEq] at h; subst h; rfl
+  | body st =>
+    simp only [runBlockAct, R.bind_eq_ok] at h
+    obtain ⟨r, _, h⟩ := h
+    simp only [R.ok.injEq] at h
+    subst h; rfl
+  | «repeat» var ce st => exact hrep var ce _ _ st [] o h
+  | «while» var cond st => exact hwh var cond _ _ st [] o h
+
 end Duckling.Props.C08
